@@ -16,7 +16,7 @@ static const char* GPX[3] = {NULL, "0.5", "text"};
 static const char* NTH[7] = {NULL, "0", "-1", "1", "2", "64", "abc"};
 static const char* FMTS[5] = {NULL, "fasta", "msf", "clu", "xyz"};
 enum { IN_DNA, IN_PROT, IN_MISSING, IN_DIR, IN_EMPTY, IN_SINGLE, NIN };
-enum { OUT_FILE, OUT_BADDIR, OUT_STDOUT, NOUT };
+enum { OUT_FILE, OUT_BADDIR, OUT_STDOUT, OUT_DEVFULL, NOUT };   /* /dev/full: the path opens, every write fails (disk full) */
 
 struct ocase { int type, gpo, gpe, tgpe, nth, fmt, in, out; int fault_k; int fault_shape; };
 
@@ -159,7 +159,7 @@ static void cmdline(const struct ocase* c, char** argv, int* n, const char** std
         }
         if(c->out != OUT_STDOUT){
                 argv[k++] = "-o";
-                argv[k++] = c->out == OUT_FILE ? P_OUT : P_BADOUT;
+                argv[k++] = c->out == OUT_FILE ? P_OUT : (c->out == OUT_DEVFULL ? "/dev/full" : P_BADOUT);
         }
         argv[k] = NULL;
         *n = k;
@@ -223,17 +223,17 @@ int vh_case(uint64_t id, int tier)
                 type_ok = 0;
         }
         expect_ok = type_ok && (c.fmt != 4) && (c.nth == 0 || c.nth == 3 || c.nth == 4 || c.nth == 5) && (c.in == IN_DNA || c.in == IN_PROT) &&
-                    c.out != OUT_BADDIR && !c.fault_k;
-        must_fail = (c.in == IN_MISSING || c.in == IN_DIR || c.in == IN_EMPTY || c.in == IN_SINGLE || c.out == OUT_BADDIR || c.fault_k ||
+                    c.out != OUT_BADDIR && c.out != OUT_DEVFULL && !c.fault_k;
+        must_fail = (c.in == IN_MISSING || c.in == IN_DIR || c.in == IN_EMPTY || c.in == IN_SINGLE || c.out == OUT_BADDIR || c.out == OUT_DEVFULL || c.fault_k ||
                      c.fmt == 4 || c.type == 7);
         if(res.status == 0){
                 /* success: the output must exist and be a valid alignment of the input */
                 size_t dl = 0;
-                char* data = c.out == OUT_STDOUT ? strdup(res.out) : vh_read_file(P_OUT, &dl);
+                char* data = c.out == OUT_STDOUT ? strdup(res.out) : (c.out == OUT_DEVFULL ? NULL : vh_read_file(P_OUT, &dl));
                 struct fp_aln a;
                 int pr, fmt = c.fmt == 2 ? 2 : (c.fmt == 3 ? 1 : 0);
                 if(must_fail){
-                        vh_fail(c.fault_k ? "sem:exit0-after-open-failure" : (c.out == OUT_BADDIR ? "sem:exit0-unwritable-output" : "sem:exit0-on-invalid-request"),
+                        vh_fail(c.fault_k ? "sem:exit0-after-open-failure" : (c.out == OUT_BADDIR ? "sem:exit0-unwritable-output" : (c.out == OUT_DEVFULL ? "sem:exit0-output-device-full" : "sem:exit0-on-invalid-request")),
                                 "exit status 0 although the request cannot be fulfilled; stderr: %.400s", res.err);
                 }
                 if(!data || !data[0]){
